@@ -743,7 +743,7 @@ def main():
     run.merge(br)
     run.sections['pyccel_build'] = dict(status=b['status'], seconds=b.get('seconds'), modules=sorted(b['modules']), failed=b.get('failed'),
                                         note=None if b['status'] != 'no-toolchain' else 'pyccel/gfortran unusable here (%s): build clause and replays of the pyccel model not run' % b['log'][:200])
-    run.sections['pyccel_model'] = dict(divergences=['D1 assignment to an array argument writes through to the caller', 'D2 loop variable after a completed loop is one step past the last value'],
+    run.sections['pyccel_model'] = dict(divergences=['D1 assignment to an array argument writes through to the caller', 'D2 loop variable after a completed loop is one step past the last value', 'D3 negative non-literal index does not wrap'],
                                         sites_in_current_source=model_notes)
     numenv.mods()
     run.functions = [dict(function='every public function of ' + ref, copies=copies + ['pyccel-model (source transform) / pyccel-build (replay)']) for ref, copies in FAMILIES.values()]
